@@ -1450,5 +1450,40 @@ theorem feed_ready (hL : eng.Lawful) (hR : CutStable R) (s : PState ι) (hs : s.
 
 end runs
 
+/-! ### the concrete engine: readiness and a decidable alignment check -/
+
+theorem linStart_ready (alts : List (List TTerm)) : (linStart alts).Ready linEngine := by
+  refine ⟨?_, ?_, rfl⟩
+  · intro p hp
+    simp only [linStart, List.mem_map] at hp
+    obtain ⟨a, _, rfl⟩ := hp
+    exact fresh_wf _ _
+  · intro p hp
+    simp only [linStart, List.mem_map] at hp
+    obtain ⟨a, _, rfl⟩ := hp
+    simp [linStart]
+
+/-- the alignment hypothesis as a computation on the processed columns -/
+def alignedCheck (s : PState LinItem) : Bool :=
+  s.done.zipIdx.all (fun (c, k) =>
+    k % 8 == 0 || c.all (fun e => match linEngine.want e.item with
+      | some (.lit _) => false | some (.regex _) => false | _ => true))
+
+theorem aligned_of_check (s : PState LinItem) (h : alignedCheck s = true) : s.Aligned linEngine := by
+  intro k col hget h8 e he hwb
+  unfold alignedCheck at h
+  rw [List.all_eq_true] at h
+  have hmem : (col, k) ∈ s.done.zipIdx := by
+    rw [List.mem_zipIdx_iff_getElem?]
+    simpa using hget
+  have := h _ hmem
+  simp only [Bool.or_eq_true, beq_iff_eq, List.all_eq_true] at this
+  rcases this with h0 | hc
+  · exact h8 h0
+  · have := hc e he
+    rcases hwb with ⟨l, hl⟩ | ⟨r, hr⟩
+    · simp [hl] at this
+    · simp [hr] at this
+
 end Incr
 end FV
